@@ -1,9 +1,14 @@
-// C13 / C01 / C02 (internal tasking back end and serial-debug back end).
+// C13 / C01 / C02: internal (enkiTS) tasking back end compiled from source (-DRKCOMMON_TASKING_INTERNAL) and the serial-debug
+// back end (no define).  Engine: vp/llpath.py with its thread model (pthread_create / sem_* / atomics executed, cooperative
+// scheduling, optional bounded schedule exploration via vp_sched).  TBB and OpenMP are closed libraries: not checked.
 #include "vp.h"
+#include <atomic>
+#include <sched.h>
 #include "rkcommon/tasking/tasking_system_init.h"
 #include "rkcommon/tasking/parallel_for.h"
 #include "rkcommon/tasking/parallel_foreach.h"
 #include "rkcommon/tasking/schedule.h"
+#include "rkcommon/tasking/async.h"
 #include "rkcommon/tasking/AsyncTask.h"
 #include "rkcommon/tasking/detail/tasking_system_init.cpp"
 #ifdef RKCOMMON_TASKING_INTERNAL
@@ -11,22 +16,33 @@
 #include "rkcommon/tasking/detail/enkiTS/TaskScheduler.cpp"
 #endif
 using namespace rkcommon::tasking;
-extern "C" void vp_workers_mode(unsigned m);
 extern "C" unsigned vp_threads_created(void);
 #ifdef VP_NATIVE_BUILD
-extern "C" void vp_workers_mode(unsigned) {}
+#include <unistd.h>
 extern "C" unsigned vp_threads_created(void) { return 0; }
 #define SYM(x)
+#define NATIVE_DELAY() usleep(30000)
+#define WAIT_A_BIT() usleep(500)
 #else
 #define SYM(x) x
+#define NATIVE_DELAY() 0
+#define WAIT_A_BIT() sched_yield()
 #endif
+#ifndef THREADS
+#define THREADS 1
+#endif
+#ifndef PREEMPT
+#define PREEMPT 0
+#endif
+static inline unsigned VPC(unsigned n) { return vp_fix(vp_choose(n)); }   // symbolic choice, one path per value the solver finds feasible
+static void init_threads() { initTaskingSystem(THREADS, false); if (THREADS > 1 && PREEMPT > 0) vp_sched(PREEMPT); }
 
 // ---------------------------------------------------------------- C13
 VP_ENTRY vp_main_init()
 {
   vp_nothrow(true);
   vp_assert(numTaskingThreads() == 0, "before initialisation numTaskingThreads() is 0");
-  int n = (int)vp_choose(5) - 1;                 // -1, 0, 1, 2, 3
+  int n = (int)VPC(5) - 1;                 // -1, 0, 1, 2, 3
   initTaskingSystem(n, false);
   int got = numTaskingThreads();
 #ifdef RKCOMMON_TASKING_INTERNAL
@@ -34,9 +50,8 @@ VP_ENTRY vp_main_init()
                SYM(vp_assert((int)vp_threads_created() == n - 1, "exactly n-1 worker threads are created (the caller is the n-th)");) }
   else { vp_assert(got >= 1, "n <= 0 selects a positive hardware-derived default"); SYM(vp_assert((int)vp_threads_created() == got - 1, "default: hardware count minus the caller");) }
   // initialising again replaces the previous setting
-  int m = (int)vp_choose(3) + 1;                 // 1..3
+  int m = (int)VPC(3) + 1;                 // 1..3
   unsigned before = vp_threads_created();
-  vp_workers_mode(1);                            // the old workers get to observe the stop flag and exit
   initTaskingSystem(m, false);
   vp_assert(numTaskingThreads() == m, "a second initialisation with m > 0 replaces the previous setting");
   SYM(vp_assert((int)(vp_threads_created() - before) == m - 1, "the new scheduler creates m-1 workers");)
@@ -46,60 +61,81 @@ VP_ENTRY vp_main_init()
   vp_reach("end");
 }
 
-// ---------------------------------------------------------------- C01
-static int g_cnt[8]; static bool g_outside;
-template <typename IDX> static void t_parallel_for(int threads)
+// parallel_for never runs its body on more threads than configured at the same time
+static std::atomic<int> g_active, g_max;
+VP_ENTRY vp_main_active()
 {
   vp_nothrow(true);
-  if (threads > 0) initTaskingSystem(threads, false);
-  for (int i = 0; i < 8; i++) g_cnt[i] = 0; g_outside = false;
-  int nn = (int)vp_choose(8) - 2;                // -2 .. 5
+  init_threads();
+  g_active = 0; g_max = 0;
+  int n = (int)VPC(4);
+  parallel_for(n, [&](int) { int a = ++g_active; int m = g_max.load(); while (a > m && !g_max.compare_exchange_weak(m, a)) {} --g_active; });
+  vp_assert(g_max.load() <= (THREADS > 0 ? THREADS : 1), "no more bodies active at once than tasking threads configured");
+  vp_assert(n == 0 || g_max.load() >= 1, "bodies ran");
+  vp_reach("end");
+}
+
+// ---------------------------------------------------------------- C01
+static int g_cnt[8];
+template <typename IDX> static void t_parallel_for()
+{
+  vp_nothrow(true);
+  init_threads();
+  for (int i = 0; i < 8; i++) g_cnt[i] = 0;
+  int nn = (int)VPC(8) - 2;                // -2 .. 5
   IDX n = (IDX)nn;
   if (!std::is_signed<IDX>::value) vp_assume(nn >= 0);
-  parallel_for(n, [&](IDX i) { if (i >= 0 && i < (IDX)8 && (long long)i < (long long)nn) g_cnt[(int)i]++; else g_outside = true; });
-  vp_assert(!g_outside, "the function is invoked for nothing outside [0,n) (a count <= 0 invokes nothing)");
+  parallel_for(n, [&](IDX i) {
+    bool inside = i >= 0 && (long long)i < (long long)nn && i < (IDX)8;
+    vp_assert(inside, "the function is invoked for nothing outside [0,n) (a count <= 0 invokes nothing)");
+    if (inside) g_cnt[(int)i]++; });
   for (int i = 0; i < 8; i++) vp_assert(g_cnt[i] == ((i < nn) ? 1 : 0), "every index in [0,n) exactly once, visible when the call returns");
   vp_reach("end");
 }
-VP_ENTRY vp_main_pfor_int() { t_parallel_for<int>(1); }
-VP_ENTRY vp_main_pfor_size_t() { t_parallel_for<size_t>(1); }
-VP_ENTRY vp_main_pfor_uchar() { t_parallel_for<unsigned char>(1); }
-VP_ENTRY vp_main_pfor_short() { t_parallel_for<short>(1); }
-VP_ENTRY vp_main_pfor_long() { t_parallel_for<long long>(1); }
-VP_ENTRY vp_main_pfor_uint() { t_parallel_for<unsigned>(1); }
+VP_ENTRY vp_main_pfor_int() { t_parallel_for<int>(); }
+VP_ENTRY vp_main_pfor_size_t() { t_parallel_for<size_t>(); }
+VP_ENTRY vp_main_pfor_uchar() { t_parallel_for<unsigned char>(); }
+VP_ENTRY vp_main_pfor_short() { t_parallel_for<short>(); }
+VP_ENTRY vp_main_pfor_long() { t_parallel_for<long long>(); }
+VP_ENTRY vp_main_pfor_uint() { t_parallel_for<unsigned>(); }
+VP_ENTRY vp_main_pfor_slong() { t_parallel_for<long>(); }
+VP_ENTRY vp_main_pfor_ull() { t_parallel_for<unsigned long long>(); }
 
 VP_ENTRY vp_main_pfor_nested()
 {
   vp_nothrow(true);
-  initTaskingSystem(1, false);
+  init_threads();
   static int cnt[3][3]; for (int i = 0; i < 3; i++) for (int j = 0; j < 3; j++) cnt[i][j] = 0;
-  int n = (int)vp_choose(3), m = (int)vp_choose(3);
+  int n = (int)VPC(3), m = (int)VPC(3);
   parallel_for(n, [&](int i) { parallel_for(m, [&](int j) { cnt[i][j]++; }); });
-  for (int i = 0; i < 3; i++) for (int j = 0; j < 3; j++) vp_assert(cnt[i][j] == ((i < n && j < m) ? 1 : 0), "nested parallel_for: every (i,j) exactly once");
+  for (int i = 0; i < 3; i++) for (int j = 0; j < 3; j++) vp_assert(cnt[i][j] == ((i < n && j < m) ? 1 : 0), "nested parallel_for: every (i,j) exactly once, visible on return");
   vp_reach("end");
 }
 
 template <int B> static void t_blocks()
 {
   vp_nothrow(true);
-  initTaskingSystem(1, false);
+  init_threads();
   static int cnt[12]; for (int i = 0; i < 12; i++) cnt[i] = 0;
-  bool bad = false; int blocks = 0;
-  int n = (int)vp_choose(12) - 1;                // -1 .. 10
-  parallel_in_blocks_of<B>(n, [&](int b, int e) { blocks++; if (!(b >= 0 && b < e && e <= n && e - b <= B && b % B == 0)) bad = true; for (int i = b; i < e && i < 12; i++) if (i >= 0) cnt[i]++; });
-  vp_assert(!bad, "blocks are non-empty, aligned, inside [0,n) and no larger than the block size");
+  std::atomic<int> blocks{0};
+  int n = (int)VPC(12) - 1;                // -1 .. 10
+  parallel_in_blocks_of<B>(n, [&](int b, int e) {
+    blocks++;
+    vp_assert(b >= 0 && b < e && e <= n && e - b <= B && b % B == 0, "blocks are non-empty, aligned, inside [0,n) and no larger than the block size");
+    for (int i = b; i < e && i < 12; i++) if (i >= 0) cnt[i]++; });
   for (int i = 0; i < 12; i++) vp_assert(cnt[i] == ((i < n) ? 1 : 0), "the blocks partition [0,n) exactly");
-  vp_assert(blocks == (n <= 0 ? 0 : (n + B - 1) / B), "number of blocks = ceil(n / block size)");
+  vp_assert(blocks.load() == (n <= 0 ? 0 : (n + B - 1) / B), "number of blocks = ceil(n / block size)");
   vp_reach("end");
 }
 VP_ENTRY vp_main_blocks4() { t_blocks<4>(); }
 VP_ENTRY vp_main_blocks1() { t_blocks<1>(); }
+VP_ENTRY vp_main_blocks3() { t_blocks<3>(); }
 
 VP_ENTRY vp_main_foreach()
 {
   vp_nothrow(true);
-  initTaskingSystem(1, false);
-  std::vector<int> v; int n = (int)vp_choose(4);
+  init_threads();
+  std::vector<int> v; int n = (int)VPC(4);
   for (int i = 0; i < n; i++) v.push_back(0);
   parallel_foreach(v, [&](int &x) { x++; });
   for (int i = 0; i < n; i++) vp_assert(v[i] == 1, "parallel_foreach visits every element exactly once");
@@ -107,38 +143,72 @@ VP_ENTRY vp_main_foreach()
 }
 
 // ---------------------------------------------------------------- C02
+static std::atomic<int> g_runs;
 VP_ENTRY vp_main_schedule()
 {
   vp_nothrow(true);
-  initTaskingSystem(1, false);
-  static int runs; runs = 0;
+  init_threads();
+  g_runs = 0;
   int *heap_state = new int(41);                   // closure owning heap state
-  schedule([=]() { runs++; (*heap_state)++; });
-#ifdef RKCOMMON_TASKING_INTERNAL
-  // with one thread the task runs when the caller next helps the scheduler: a parallel_for does that
-  parallel_for(1, [&](int) {});
-#endif
-  vp_assert(runs == 1 && *heap_state == 42, "a scheduled function is executed exactly once (no further action than running the scheduler)");
+  schedule([=]() { (*heap_state)++; g_runs++; });
+  // no further action by the caller: it only waits (yielding the processor), bounded
+  for (int spin = 0; spin < 2000 && g_runs.load() == 0; spin++) WAIT_A_BIT();
+  vp_assert(g_runs.load() == 1 && *heap_state == 42, "a scheduled function is executed exactly once, with no further action required from the caller");
   delete heap_state;
+  // a parallel loop afterwards drives the scheduler again: the finished task must not be touched or run a second time
+  parallel_for(2, [&](int) {});
+  vp_assert(g_runs.load() == 1, "the scheduled function is not executed again");
   vp_reach("end");
 }
 
-struct Payload { int v; static int ctor, dtor, assign_to_dead; bool alive; Payload() : v(0), alive(true) { ctor++; } Payload(int x) : v(x), alive(true) { ctor++; }
-  Payload(const Payload &o) : v(o.v), alive(true) { ctor++; } Payload &operator=(const Payload &o) { if (!alive) assign_to_dead++; v = o.v; return *this; } ~Payload() { dtor++; alive = false; } };
+VP_ENTRY vp_main_schedule_burst()
+{
+  vp_nothrow(true);
+  init_threads();
+  g_runs = 0;
+  int k = 1 + (int)VPC(3);
+  for (int i = 0; i < k; i++) schedule([]() { g_runs++; });
+  for (int spin = 0; spin < 2000 && g_runs.load() < k; spin++) WAIT_A_BIT();
+  vp_assert(g_runs.load() == k, "each of a burst of scheduled functions is executed exactly once");
+  vp_reach("end");
+}
+
+struct Payload {
+  int v; bool alive; static int ctor, dtor, assign_to_dead;
+  Payload() : v((NATIVE_DELAY(), 0)), alive(true) { ctor++; }    // native replay only: widen the window between the task starting and the result member being constructed
+  Payload(int x) : v(x), alive(true) { ctor++; }
+  Payload(const Payload &o) : v(o.v), alive(true) { ctor++; }
+  Payload &operator=(const Payload &o) { if (!alive) assign_to_dead++; v = o.v; return *this; }
+  ~Payload() { dtor++; alive = false; }
+};
 int Payload::ctor, Payload::dtor, Payload::assign_to_dead;
 VP_ENTRY vp_main_asynctask()
 {
   vp_nothrow(true);
-  initTaskingSystem(1, false);
+  init_threads();
   Payload::ctor = Payload::dtor = Payload::assign_to_dead = 0;
   int x = vp_nondet_int();
   {
-    AsyncTask<Payload> t([=]() { return Payload(x); });
-    Payload r = t.get();
+    // storage that is not a constructed Payload until AsyncTask's constructor has built its result member
+    alignas(AsyncTask<Payload>) static unsigned char raw[sizeof(AsyncTask<Payload>)];
+    for (unsigned i = 0; i < sizeof raw; i++) raw[i] = 0;
+    AsyncTask<Payload> *t = new (raw) AsyncTask<Payload>([=]() { return Payload(x); });
+    Payload r = t->get();
     vp_assert(r.v == x, "AsyncTask::get() yields exactly the value the function returned");
-    vp_assert(t.finished(), "after get() the task has finished");
+    vp_assert(t->finished(), "after get() the task has finished");
+    t->~AsyncTask<Payload>();
   }
-  vp_assert(Payload::assign_to_dead == 0, "the result is never assigned into storage that holds no constructed object");
+  vp_assert(Payload::assign_to_dead == 0, "the result is never assigned into a result slot that is not (yet) a constructed object");
   vp_assert(Payload::ctor == Payload::dtor, "every result object constructed is destroyed exactly once");
+  vp_reach("end");
+}
+
+VP_ENTRY vp_main_asynctask_drop()
+{
+  vp_nothrow(true);
+  init_threads();
+  static int ran; ran = 0;
+  { AsyncTask<int> t([&]() { ran++; return 7; }); }   // destroyed without get(): the destructor waits for the task
+  vp_assert(ran == 1, "destroying an AsyncTask first waits for its task (which ran exactly once)");
   vp_reach("end");
 }
